@@ -2,7 +2,7 @@
 (***************************************************************************)
 (* Trace validation for Glob: every `Like` event recorded from the real    *)
 (* code (pattern bytes, string bytes, observed result through the          *)
-(* constructor path `res` and the IPLD path `res2`) must be a behaviour of *)
+(* constructor path `res`, the IPLD path `res2`, the written-and-read-back path `res3`) must be a behaviour of *)
 (* the specification: the logged result is the declarative language        *)
 (* membership.  The machine is run on the same pair (m' = Run(...)), so    *)
 (* the invariant Agree re-checks shape = declarative far outside the       *)
@@ -26,6 +26,7 @@ TraceLike ==
          d == IF d0 = "reject" \/ Trace[l].kind = "string" THEN d0 ELSE "false" IN
        /\ Trace[l].res = d
        /\ Trace[l].res2 = d
+       /\ Trace[l].res3 = d      \* written out by the constructor's side (ToIPLD, DAG-CBOR / DAG-JSON), read back, evaluated
   /\ m' = Run(InitM(Trace[l].pat, Trace[l].str))
   /\ l' = l + 1
 
